@@ -42,7 +42,8 @@ func runBatchCase(c batchCase) (string, string, cmdmodel.Result) {
 		// the reference semantics terminate after RefSteps steps; no statement expands to hundreds of script lines per step
 		return "no-termination", fmt.Sprintf("the script is still running after %d lines under the cmd.exe model; the reference semantics finish after %d steps\n--- output so far\n%.600s\n--- script\n%s", limit, c.RefSteps, res.Stdout, strings.ReplaceAll(tr.Script, "\r\n", "\n")), res
 	}
-	if cls := res.Inconclusive; strings.HasPrefix(cls, "stray-paren") || strings.HasPrefix(cls, "unsupported:command:)") || strings.HasPrefix(cls, "syntax:") {
+	if cls := res.Inconclusive; strings.HasPrefix(cls, "stray-paren") || strings.HasPrefix(cls, "unsupported:command:)") || (strings.HasPrefix(cls, "syntax:") && !strings.HasPrefix(cls, "syntax:trailing-text")) {
+		// (text after a complete command - "syntax:trailing-text" - stays inconclusive: it may be a form the model cannot read)
 		// execution reached a ")" outside any block or text that is no command: cmd.exe's documented rules give the
 		// script no meaning from here on (in practice: an error message, or branches that run although another one was taken)
 		return "malformed-at-run-time", fmt.Sprintf("execution under the cmd.exe model reaches text that is no command (%s)\n--- output so far\n%.600s\n--- script\n%s", cls, res.Stdout, strings.ReplaceAll(tr.Script, "\r\n", "\n")), res
